@@ -130,7 +130,16 @@ def arm_budgets(cpu_s: float | None, as_bytes: int | None, stackfile_hint=None):
             pass
     if as_bytes:
         cur = _vm_size()
-        resource.setrlimit(resource.RLIMIT_AS, (cur + as_bytes, cur + as_bytes))
+        hard = resource.getrlimit(resource.RLIMIT_AS)[1]
+        resource.setrlimit(resource.RLIMIT_AS, (cur + as_bytes, hard))  # soft only: the harness lifts it again after the measured section
+
+
+def disarm_as():
+    try:
+        hard = resource.getrlimit(resource.RLIMIT_AS)[1]
+        resource.setrlimit(resource.RLIMIT_AS, (hard, hard))
+    except Exception:
+        pass
 
 
 def _vm_size() -> int:
